@@ -11,6 +11,25 @@ if unix_like:
     from resource import RUSAGE_SELF, getrusage
 
 
+def aggregation_kwargs(method: str) -> dict:
+    """
+    Keyword arguments to forward to `pulser.backend.Observable.__init__`.
+
+    From pulser-core 1.9 on, `Observable.__init__` requires the keyword
+    `default_aggregation_method`; earlier versions do not accept it.
+    `method` is the name of a member of pulser's `AggregationMethod`.
+    """
+    import inspect
+    from pulser.backend.observable import Observable
+
+    parameters = inspect.signature(Observable.__init__).parameters
+    if "default_aggregation_method" not in parameters:
+        return {}
+    from pulser.backend.observable import AggregationMethod
+
+    return {"default_aggregation_method": AggregationMethod[method]}
+
+
 def init_logging(log_level: int, log_file: Path | None) -> logging.Logger:
     """Create and return a configured logger for the emulators package.
 
